@@ -250,3 +250,22 @@ reg("C12", "c12", [("problems", "plain", 1)], "exploration",
                "infeasible/unbounded variants must report the documented status with values/multipliers None.",
     level_note="Trusts vlib/ref_model.py, vlib/ref_lp.py and scipy HiGHS.",
     design_ref="4/C12")
+
+reg("C14", "c14", [("roundtrip", "plain", 1), ("reader", "plain", 1)], "exploration",
+    rule="roundtrip: Hypothesis draws an LP in the modeling layer (1-3 variables of lengths 1-3 with distinct short or empty "
+         "names, 1-4 constraints <=, >=, == with scalar / row / matrix coefficients, dense or sparse, vector or scalar "
+         "right-hand sides, affine objective with constant, values with <= 6 significant digits in [1e-3, 1e4]); tofile, "
+         "fromfile on a fresh op, then rows and columns are matched by their MPS labels and compared as affine maps; both "
+         "problems are solved. reader: Hypothesis draws a structured MPS model (N/L/G/E rows, COLUMNS with one or two "
+         "entries per line, RHS, RANGES of both signs on every row type, LO/UP/FX/FR/MI/PL bounds, comment lines, extra "
+         "N row, second RHS/RANGES/BOUNDS vectors), renders it in fixed format and compares the constraints built by "
+         "fromfile with those the format defines (multiset). Non-trivial = LP with a vector variable, a matrix "
+         "coefficient and an equality (roundtrip); file with RANGES and >= 2 bound kinds (reader).",
+    assumptions=["labels are kept short enough that the writer's 8-character label mangling is injective (collisions "
+                 "are skipped and counted)", "UP with a negative value and no lower bound is not generated (dialect dependent)",
+                 "rows without coefficients are removed by fromfile as its code documents"],
+    technique="property-based round-trip testing + differential against an independent MPS semantics model (Hypothesis)",
+    level_text="~6e3 (quick) round trips compared coefficient-by-coefficient through the MPS labels plus status/optimal value, "
+               "and ~1.2e4 generated fixed-format files whose constraint multiset must equal the one the MPS format defines.",
+    level_note="Trusts the MPS semantics model in checks/c14.py (expected()) and the fixed-column renderer.",
+    design_ref="4/C14")
